@@ -125,7 +125,7 @@ CloseEnd(r) ==
 \* accept() ends: raises RuntimeError(cause) for a failure, returns for SIGINT / shutdown /
 \* KeyboardInterrupt; other BaseExceptions propagate as they are
 ResultFor(r) ==
-    IF r > 1 \/ Failed = {} THEN {[kind |-> "returned", cause |-> "-"]} \cup {[kind |-> "raised", cause |-> p] : p \in Kbd}
+    IF r > 1 \/ Failed = {} THEN {[kind |-> "returned", cause |-> "-"]}
     ELSE {[kind |-> (IF endhow[p] = "base" THEN "raised" ELSE "runtime_error"), cause |-> p] : p \in Failed}
          \* a stop requested from outside may win the race against a failure
          \cup (IF sigint \/ shut # "none" \/ Kbd # {} THEN {[kind |-> "returned", cause |-> "-"]} ELSE {})
@@ -239,6 +239,9 @@ FailStopSafe == (Ended /\ result[1].kind = "returned") => (Failed = {} \/ StopRe
 CauseFaithful == (Ended /\ result[1].kind \in {"runtime_error", "raised"}) =>
     /\ result[1].cause \in Failed \cup Kbd
     /\ (result[1].kind = "runtime_error") = (endhow[result[1].cause] \in {"val", "exc"})
+\* "Only a KeyboardInterrupt ends the run without an error": a payload - of any flavour - that
+\* raises KeyboardInterrupt interrupts the runtime as ^C does; accept() returns
+InterruptEndsQuietly == (Ended /\ Failed = {} /\ Kbd # {}) => result[1].kind = "returned"
 \* it never keeps running
 FailStopLive == (Failed # {}) ~> (phase[1] = "ended")
 
